@@ -335,8 +335,27 @@ ROLES = {
 }
 
 
+_UTF8 = {2: ["\u00e9", "\u00df", "\u03bb"], 3: ["\u20ac", "\u4e2d"], 4: ["\U0001F600", "\U00010348"]}
+
+
+def utf8_of_len(rng, n):
+    """exactly n bytes of valid UTF-8: ASCII mixed with 2-, 3- and 4-byte characters (a string's byte length and its
+    character count differ)"""
+    out = []
+    while len(out) < n:
+        room = n - len(out)
+        w = rng.weighted([(1, 6), (2, 2), (3, 1), (4, 1)])
+        if w > room:
+            w = 1
+        if w == 1:
+            out.append(32 + rng.below(90))
+        else:
+            out += list(rng.choice(_UTF8[w]).encode("utf-8"))
+    return out
+
+
 def fix_roles(shape_index, t, v, rng, tpath=()):
-    """make a generated value respect the Owned types: sorted unique keys, ASCII strings"""
+    """make a generated value respect the Owned types: sorted unique keys, valid UTF-8 strings"""
     role = role_at(shape_index, tpath)
     k = t[0]
     if role in ("map", "set"):
@@ -350,7 +369,7 @@ def fix_roles(shape_index, t, v, rng, tpath=()):
         return ("S", [("L", [seen[kk] for kk in sorted(seen)])])
     if role == "string":
         items = v[1][0][1]
-        return ("S", [("L", [[32 + (it[0] % 90)] for it in items])])
+        return ("S", [("L", [[b] for b in utf8_of_len(rng, len(items))])])
     if role == "umap":
         ut = t[1][0]
         es = v[1][0][1]
